@@ -217,6 +217,9 @@ def c18_variants(sc, seed):
     b["model"]["class"] = "psi"
     b["model"]["psi"] = random.Random(seed).choice([1.0, 1, "1_0"])
     b["model"]["restoration_tau"] = int(sc["model"]["dt"])
+    if random.Random(seed + 1).random() < 0.5:
+        # the same restoration time given per input, as a dictionary
+        b["model"]["restoration_tau"] = {s_: int(sc["model"]["dt"]) for s_ in scen.labels(sc["table"])[1]}
     ra, rb = run_records(a, register_stocks=True), run_records(b, register_stocks=True)
     out += cmp_records("C18", ra, rb, "base model vs psi model with psi = 1 and restoration time of one step",
                        names=RECORDS + ["inputs_stocks"])
@@ -250,6 +253,26 @@ def c18_orders(sc, seed):
         outs.append(run_records(tw))
     out += cmp_records("C18", outs[0], outs[1], "alt vs noalt under a uniform capacity loss of every supplier of an input",
                        rtol=1e-8, atol_scale=1e-9)
+    # technical coefficients given with 8 decimals (consistent with Z and x within the accepted tolerance only):
+    # both variants must still take their supplier shares from the same flows.  Overproduction disabled: such a
+    # table is not exactly at rest and the drift of alpha is not what is compared here
+    if rng.random() < 0.5 and sc["table"]["scale"] >= 1:
+        outs = []
+        for ot in ("alt", "noalt"):
+            tw = copy.deepcopy(sc)
+            tw["table"]["A_round"] = 8
+            # one industry sells mostly to final demand: its technical coefficients are small numbers, of which 8
+            # decimals keep only a few significant digits
+            jbig = (seed + 3) % len(tw["table"]["Y"])
+            tw["table"]["Y"][jbig] = [abs(v) * 1e4 + 1.0 for v in tw["table"]["Y"][jbig]]
+            tw["events"] = []
+            tw["T"] = 6
+            tw["model"]["order_type"] = ot
+            tw["model"]["alpha_max"] = tw["model"]["alpha_base"]
+            outs.append(run_records(tw))
+        if "error" not in outs[0] and "error" not in outs[1]:
+            out += cmp_records("C18", outs[0], outs[1], "alt vs noalt on an event-free run, coefficients published with 8 decimals",
+                               rtol=1e-7, atol_scale=1e-9, names=["intermediate_demand", "production_realised"])
     return out
 
 
